@@ -106,3 +106,8 @@ func (g *Gtp5g) VerifQueryMulti(m map[uint64][]uint32) error {
 	_, err := g.psQueryURR(m)
 	return err
 }
+
+// VerifMux exposes the netlink multiplexer so that the harness can attach a
+// simulated multicast connection to it (deliveries then run on the real mux
+// goroutine, exactly as in production).
+func (g *Gtp5g) VerifMux() *nl.Mux { return g.mux }
